@@ -421,7 +421,7 @@ def oracle_rtx_timer(case, impl):
         if ev["res"].startswith("ready"):
             break
         st = ev["fp"].get("st", "")
-        if not st.startswith(("Established", "FinWait1")):
+        if not st.startswith(("Established", "FinWait1", "LastAck")):
             pending = []
             continue
         for d in pending:
@@ -772,10 +772,16 @@ def oracle_probe_discipline(case, impl):
     if any(l.startswith(("vs tmode", "vs chanclose")) for l in case):
         return []
     pending, outstanding, highest, oversized, mss_prev = [], {}, None, None, None
+    over_count, probe_retx, rto_only = 0, 1, True
     for ev in tr.events:
         if ev["op"] == "new":
             pending, outstanding, oversized, mss_prev = [], {}, None, None
             highest = (int(ev["opts"].get("our", 101)) - 1) % 65536
+            over_count, rto_only = 0, True
+            try:
+                probe_retx = int(ev["opts"].get("probe_retx", 1))
+            except ValueError:
+                probe_retx = 1
         if ev["op"] == "inject" and "dgram" in ev:
             pending.append(ev["dgram"])
         if ev["op"] != "poll" or "dgrams" not in ev:
@@ -789,6 +795,7 @@ def oracle_probe_discipline(case, impl):
                 if _md(d["ack"], q) >= 0:
                     del outstanding[q]
             if d["sack"] is not None:
+                rto_only = False
                 raw = (bytes(d["sack"]) + bytes(8))[:8]
                 for b in range(64):
                     if raw[b // 8] >> (b % 8) & 1:
@@ -796,6 +803,10 @@ def oracle_probe_discipline(case, impl):
         pending = []
         if oversized is not None and oversized not in outstanding:
             oversized = None
+        if oversized is None:
+            over_count = 0
+        if ev["fp"].get("rec", "no") != "no":
+            rto_only = False
         try:
             mss_now = int(ev["fp"].get("ss", "min_ss=0:").split("min_ss=")[1].split(":")[0])
         except (IndexError, ValueError):
@@ -814,8 +825,19 @@ def oracle_probe_discipline(case, impl):
                 highest = d["seq"]
                 if d["plen"] > max(proven, mss_now):
                     oversized = d["seq"]
+                    over_count = 1
             elif d["seq"] == oversized and d["plen"] <= max(proven, mss_now):
                 oversized = None            # popped and re-segmented at a proven size
+                over_count = 0
+            elif d["seq"] == oversized:
+                # the oversized segment again, at the same size: only the retransmission timer resends it in a history
+                # without loss recovery, and a probe is given up (popped, re-segmented at a proven size) after
+                # `mtu_probe_max_retransmissions` of those
+                over_count += 1
+                if rto_only and over_count > 1 + probe_retx:
+                    hits.append({"sig": {"oracle": "probe", "what": "oversized_segment_retransmitted_like_an_ordinary_one"},
+                                 "text": f"data seq {d['seq']} ({d['plen']} bytes, larger than the proven segment size {max(proven, mss_now)}) is on the wire for the {over_count}th time at that size: a segment above the proven size must be a probe, and a probe is re-segmented after {probe_retx} retransmission(s) - on a path that does not carry this size the data is never delivered"})
+                    return hits
             outstanding[d["seq"]] = d["plen"]
         mss_prev = mss_now
     return hits
